@@ -74,9 +74,13 @@ pub struct GraphOpts {
     pub weights: [usize; 10],
     /// start with a fork that keeps the actor id of its origin
     pub twin_start: bool,
+    /// explicit calls of a first transaction by replica 0 that every replica then merges
+    pub base_calls: Vec<serde_json::Value>,
 }
 
 pub const W_DEFAULT: [usize; 10] = [34, 38, 46, 56, 78, 84, 88, 91, 95, 98];
+pub const W_DOC: [usize; 10] = [50, 51, 55, 72, 90, 94, 96, 96, 100, 100];
+pub const W_CONFLICT: [usize; 10] = [50, 50, 52, 70, 94, 96, 96, 96, 100, 100];
 pub const W_DUP: [usize; 10] = [36, 38, 40, 50, 88, 92, 92, 95, 98, 99];
 
 /// Random program mixing commits, empty commits, isolated commits, merges, out-of-order and
@@ -89,6 +93,12 @@ pub fn graph_scenario(idx: usize, rng: &mut Rng, o: &GraphOpts, family: &str) ->
     for _ in 0..n0 {
         w.add_rep(next_actor);
         next_actor += 1;
+    }
+    if !o.base_calls.is_empty() {
+        w.commit(0, rng, &o.prof, 0, Some(o.base_calls.clone()), None);
+        for r in 1..w.n() {
+            w.merge(r, 0);
+        }
     }
     if o.twin_start {
         let k = rng.below(3);
